@@ -224,6 +224,7 @@ func c03(c *Ctx) {
 
 func (c *Ctx) flagCase(rule string) {
 	P, R := c.P, c.R
+	lowerCasedProg = P
 	// (a) Unchecked arguments
 	n := 0
 	for _, f := range c.productFuncs() {
@@ -432,6 +433,31 @@ func lowerCased(v ssa.Value) bool {
 			}
 		case *ssa.Slice:
 			walk(t.X)
+		case *ssa.Parameter:
+			// the parameter of an unexported helper: lower-cased if every call site passes a lower-cased value
+			fn := t.Parent()
+			if lowerCasedProg == nil || fn == nil || fn.Object() == nil || fn.Object().Exported() {
+				ok = false
+				return
+			}
+			idx := -1
+			for i, q := range fn.Params {
+				if q == t {
+					idx = i
+				}
+			}
+			callers := lowerCasedProg.CallersOf(fn)
+			if idx < 0 || len(callers) == 0 {
+				ok = false
+				return
+			}
+			for _, cs := range callers {
+				if cs.Common().IsInvoke() || idx >= len(cs.Common().Args) {
+					ok = false
+					return
+				}
+				walk(cs.Common().Args[idx])
+			}
 		default:
 			ok = false
 		}
@@ -439,6 +465,9 @@ func lowerCased(v ssa.Value) bool {
 	walk(v)
 	return ok
 }
+
+// lowerCasedProg gives lowerCased access to the call graph (callers of a helper).
+var lowerCasedProg *engine.Prog
 
 // classifiedEdge: blk is dominated by the true edge of errors.Is(err, X) / db.IsErrNotFound(err).
 // firstErrorTest: the nil test `iff` of errVal can be the first such test on some path from the
